@@ -380,6 +380,12 @@ def main(argv):
         print(f"UNDECIDED property={prop} reason=no units registered", file=sys.stderr)
         return 2
     bdir = os.path.join(BUILD, prop + "-" + a.tier)
+    if os.path.realpath(a.repo) != os.path.realpath("/repo"):
+        # runs against another tree (mutants, seeded changes) get a build directory of their own: they may run next to
+        # a check of /repo or to each other
+        bdir = os.path.join(BUILD, "alt", f"run-{os.getpid()}", prop + "-" + a.tier)
+        import atexit
+        atexit.register(lambda: shutil.rmtree(os.path.dirname(bdir), ignore_errors=True))
     os.makedirs(bdir, exist_ok=True)
     if not os.path.exists(VX):
         subprocess.run(["cargo", "build", "--release", "--offline"], cwd=os.path.join(ROOT, "tools/vx"), check=True,
